@@ -82,6 +82,9 @@ def check(spec):
         if spec.get("late") and t["k"] == "compose" and len(t["m"]) >= 2:
             # the composition is assembled step by step: the last member is appended to the public list after construction
             tr = treg.build({"k": "compose", "m": t["m"][:-1]}, factory=bool(spec.get("factory")))
+            if spec["late"] == 2:
+                # ... and a generator had already been injected once (a warm-up / sanity run) before the member was added
+                tr.set_rng(np.random.default_rng(12345))
             tr.transforms.append(treg.build(t["m"][-1], factory=bool(spec.get("factory"))))
             return tr
         # factory: the transform is described as configuration files describe it (kind-dicts, plain lists) and resolved by the factory
@@ -180,7 +183,7 @@ def _wrap(tstrat):
                                   "m": st.integers(1, 5), "h": st.integers(0, 3), "g1": st.integers(0, 2 ** 31),
                                   "g2": st.integers(0, 2 ** 31), "pre_scale": st.sampled_from([None, None, 0.0, 0.5, 1.0]), "detour": st.sampled_from([None, 0.0, 0.0, 0.3]),
                                   "post_scale": st.sampled_from([None, 1.0, 0.7]), "b_via": st.sampled_from([None, None, "deepcopy", "pickle"]),
-                                  "late": st.booleans(), "factory": st.booleans()})
+                                  "late": st.sampled_from([0, 0, 1, 2]), "factory": st.booleans()})
 
 
 @st.composite
